@@ -15,8 +15,8 @@ import (
 	"fmt"
 	"hash"
 	"io"
-	"strings"
 	"math/big"
+	"strings"
 
 	"github.com/russellhaering/gosaml2/types"
 
